@@ -32,6 +32,7 @@ enum __vf_code
     VF_LIST_INC_END,
     VF_LIST_DEC_BEGIN,
     VF_LIST_BACK_EMPTY,
+    VF_LIST_GREW, // a list constructed with a fixed number of nodes (the caches' slot lists) needs one more node
     VF_UMAP_DEAD_ITER,
     VF_UMAP_STALE_ITER,
     VF_UMAP_DEREF_END,
@@ -465,14 +466,15 @@ public:
         size_t i;
     };
 
-    list() : m_size(0), m_pool(nullptr), m_pool_n(0) { init(VSTD_LIST_MAX); }
-    explicit list(size_t n) : m_size(0), m_pool(nullptr), m_pool_n(0)
+    list() : m_size(0), m_pool(nullptr), m_pool_n(0), m_fixed(false) { init(VSTD_LIST_MAX); }
+    explicit list(size_t n) : m_size(0), m_pool(nullptr), m_pool_n(0), m_fixed(false)
     {
         init(n);
         for (size_t k = 0; k < n; ++k)
         {
             emplace_back();
         }
+        m_fixed = true; // the pool holds exactly these n nodes: growth is reported, not cut away (see take_free)
     }
     list(const list&) = delete;
     list& operator=(const list&) = delete;
@@ -630,7 +632,12 @@ private:
             if (!m_pool[k].live)
                 return k;
         }
-        __vf_assume(false); // model bound: list grew beyond n + VSTD_GROW
+        // No free node.  A list built by list(n) is one of the caches' slot lists, whose node count IS the capacity: needing
+        // another node means the list grows, which the model must not hide by cutting the path - it is reported as a
+        // contract failure and then decided on the real build.  For lists that legitimately grow (default-constructed) the
+        // pool size is a stated model bound.
+        __vf_check(!m_fixed, VF_LIST_GREW);
+        __vf_assume(false);
         return 1;
     }
     void check_mine(const iterator& it) const
@@ -657,6 +664,7 @@ public: // model state, public so that verification harnesses can inspect / cons
     size_t m_size;
     node*  m_pool;
     size_t m_pool_n;
+    bool   m_fixed;
 };
 
 template<class It>
@@ -1504,6 +1512,9 @@ public:
     constexpr Rep count() const { return m_c; }
     using rep    = Rep;
     using period = Period;
+    static constexpr duration zero() { return duration(Rep(0)); }
+    static constexpr duration min() { return duration(Rep(-9223372036854775807LL - 1)); }
+    static constexpr duration max() { return duration(Rep(9223372036854775807LL)); }
 
 private:
     Rep m_c;
@@ -1566,6 +1577,8 @@ public:
     constexpr time_point() : m_d() {}
     constexpr explicit time_point(Dur d) : m_d(d) {}
     constexpr Dur time_since_epoch() const { return m_d; }
+    static constexpr time_point min() { return time_point(Dur::min()); }
+    static constexpr time_point max() { return time_point(Dur::max()); }
 
 private:
     Dur m_d;
